@@ -12,6 +12,7 @@ The loops are proved to compute exactly this sequence (so its set is the specifi
 which the set of directories and the listings are enumerated).
 """
 import ast
+import re
 
 from pyvc import smt
 from pyvc.smt import And, Or, Not, Implies, Ite, Eq, IntVal, StrVal, Len, Add, Sub, Lt, Le, Ge, Gt, Concat, Extract, At, Unit
@@ -336,6 +337,32 @@ def native_fs_search():
                 if link and os.path.islink(link):
                     os.unlink(link)
                 ws.close()
+    # a root directory whose name contains glob metacharacters; a link that leads nowhere matched by a source_dirs glob
+    from replay.harness import make_server
+    for rootname, cfg, dangling in (("proj[1]", {}, False), ("a*b?c", {}, False), ("plain", {"source_dirs": ["*"]}, True)):
+        ws = Workspace({})
+        try:
+            root = os.path.join(os.path.realpath(ws.root), rootname)
+            os.makedirs(os.path.join(root, "sub"))
+            for rel_, txt in (("a.f90", "module a\nend module a\n"), ("sub/b.f90", "module b\nend module b\n")):
+                with open(os.path.join(root, rel_), "w") as fh:
+                    fh.write(txt)
+            if cfg:
+                with open(os.path.join(root, ".fortlsrc"), "w") as fh:
+                    json.dump(cfg, fh)
+            if dangling:
+                os.symlink(os.path.join(root, "nonexistent"), os.path.join(root, "dangling"))
+            srv, rw = make_server([])
+            srv.nthreads = 1
+            srv.handle({"jsonrpc": "2.0", "id": 0, "method": "initialize", "params": {"rootPath": root}})
+            got = {os.path.relpath(os.path.realpath(p), root) for p in srv.workspace}
+            want = {"sub/b.f90"} if cfg.get("source_dirs") == ["*"] else {"a.f90", "sub/b.f90"}
+            if got != want:
+                return {"root_directory_name": rootname, "configuration": cfg, "dangling_link_in_root": dangling,
+                        "expected": sorted(want), "indexed": sorted(got),
+                        "messages": [str(m)[:160] for m in rw.out if "showMessage" in str(m) or "error" in str(m)][:2]}
+        finally:
+            ws.close()
     return None
 
 
@@ -344,12 +371,36 @@ def extra(repo, reg, tier, seed):
     items = []
     from fortls.regex_patterns import create_src_file_exts_regex, create_src_file_exts_str
     fi = repo.func("fortls.regex_patterns.create_src_file_exts_regex")
-    src = ast.unparse(fi.node)
-    anchored = "'$)|('.join(EXPRESSIONS)}$))" in src and "re.compile(f'({DEFAULT}$)')" in src
-    items.append(Item("C18/create_src_file_exts_regex/ensures.anchored", "proved" if anchored else "refuted",
-                      "structural", 0.0, where=fi.where(), mode="table", func=fi.qualname,
-                      detail="every alternative of the suffix regex is followed by `$` (both the normal and the fallback pattern)",
-                      witness=None if anchored else {"source": src[-400:]}))
+    # anchoring, decided on the patterns the real function builds (normal and fallback path): a name matches iff it *ends*
+    # in an accepted suffix — nothing may follow, not even a line break
+    bad_anchor = None
+    defaults = [".f", ".F", ".f90", ".F90", ".f77", ".for", ".FOR", ".fpp", ".Fpp", ".f18"]
+    for extra_sufs in ([], [".inc"], [".inc", ".h"], ["("]):   # "(" is not a valid expression: the fallback pattern
+        try:
+            rx = create_src_file_exts_regex([re.escape(x) for x in extra_sufs] if extra_sufs != ["("] else ["("])
+        except Exception as e:  # noqa: BLE001
+            bad_anchor = {"suffixes": extra_sufs, "problem": f"raised {e!r}"}
+            break
+        accepted = set(defaults) | (set(extra_sufs) if extra_sufs != ["("] else set())
+        for stem in ("a", "x.y", "d/e"):
+            for suf in defaults + [".inc", ".h", ".INC", ".f9", ".f900", ".bak"]:
+                for tail in ("", "\n", " ", ".bak", "x", "\r", "\n\n"):
+                    name = stem + suf + tail
+                    want = tail == "" and suf in accepted
+                    if bool(rx.search(name)) != want:
+                        bad_anchor = {"additional_suffixes": extra_sufs, "file_name": name, "expected_match": want, "pattern": rx.pattern}
+                        break
+                if bad_anchor:
+                    break
+            if bad_anchor:
+                break
+        if bad_anchor:
+            break
+    items.append(Item("C18/create_src_file_exts_regex/ensures.anchored", "refuted" if bad_anchor else "proved",
+                      "finite-enumeration(CPython)", 0.0, where=fi.where(), mode="table", func=fi.qualname,
+                      detail="every alternative of the suffix pattern (normal and fallback) matches at the very end of the name only: "
+                             "4 suffix lists x 3 stems x 16 suffixes x 7 tails with the real function",
+                      witness=bad_anchor, confirmed=True if bad_anchor else None))
     fs = repo.func("fortls.regex_patterns.create_src_file_exts_str")
     esc = "[re.escape(ext) for ext in input_exts]" in ast.unparse(fs.node)
     items.append(Item("C18/create_src_file_exts_str/ensures.literal_suffixes", "proved" if esc else "refuted",
